@@ -109,6 +109,11 @@ def scenarios(rec, which=("validator", "evm", "wallet"), rounds=1):
 
 
 # ------------------------------------------------------------------------------------------ W3
+class _W3Budget(BaseException):
+    """Raised from a timer signal inside a repository test that outlives the slice's budget (BaseException: neither the library
+    nor the monitors' guards swallow it; pytest records the test as failed and goes on)."""
+
+
 class _Slice:
     def __init__(self, index, count):
         self.index, self.count = index, count
@@ -119,12 +124,34 @@ class _Slice:
         self.budget_s = float(os.environ.get("PV_W3_BUDGET_S", "900"))
         self.t0 = time.time()
         self.over_budget = 0
+        self.abandoned = 0
 
     def pytest_runtest_setup(self, item):
         if time.time() - self.t0 > self.budget_s:
             self.over_budget += 1
             import pytest
             pytest.skip("W3 wall-clock budget of this shard used up")
+
+    def pytest_runtest_call(self, item):
+        # a test already running when the budget ends gets a grace period, then is abandoned (its outcome decides nothing)
+        import signal
+        left = self.budget_s + float(os.environ.get("PV_W3_GRACE_S", "600")) - (time.time() - self.t0)
+
+        def stop(signum, frame):
+            self.abandoned += 1
+            raise _W3Budget("W3 budget and grace period used up")
+        try:
+            signal.signal(signal.SIGALRM, stop)
+            signal.setitimer(signal.ITIMER_REAL, max(1.0, left))
+        except (ValueError, OSError):
+            pass
+
+    def pytest_runtest_teardown(self, item):
+        import signal
+        try:
+            signal.setitimer(signal.ITIMER_REAL, 0)
+        except (ValueError, OSError):
+            pass
 
     def pytest_collection_modifyitems(self, session, config, items):
         keep = [it for i, it in enumerate(sorted(items, key=lambda it: it.nodeid)) if i % self.count == self.index]
@@ -174,6 +201,7 @@ def repo_tests(rec, index, count):
     rec.event("W3:tests-passed", sl.passed)
     rec.event("W3:tests-failed", sl.failed)
     rec.event("W3:tests-not-started(budget)", sl.over_budget)
+    rec.event("W3:tests-abandoned(budget)", sl.abandoned)
     rec.event("W3:oracle-evaluations-during-repo-tests", rec.evals - evals0)
     rec.notes.setdefault("W3", "the repository's own tests ran in-process under the installed monitors, sliced over the shards; test outcomes themselves do not decide anything here")
     rec.paths["W3:seconds"] += int(time.time() - t0)
